@@ -1,4 +1,5 @@
 import Robust.Irc.Proofs.Clean
+import Robust.Irc.Proofs.CleanEntry
 import Robust.Gen.Exprs
 /-!
 # C15 — every line sent to clients is a single well-formed IRC line
@@ -11,6 +12,19 @@ smuggle a second protocol line (CR/LF injection)."
 * `parseMessage` models `irc.ParseMessage`.
 * `firstLine` models the Go helper of the HTTP handlers that cuts the posted text at the first
   CR, LF or NUL.
+
+Byte level (first half of the file): rendering, parsing, the cut.
+
+State level (second half): handlers build lines from strings *stored* in the state, so a dirty string
+stored earlier could surface later.  `CInv st` (`Proofs/CleanInv.lean`) says that every stored string
+that can reach a line is clean: of every session `nick`, `username`, `realname`, `awayMsg`, `svid`,
+`pass`, `ircPrefix.{name,user,host}`; of every channel `name`, `topicNick`, `topic`, `key`, the masks
+of its bans; the `reason` of every SVSHOLD; the GLINE reasons `config.banned`; `serverName`.
+(Not included, because the proofs show that no handler copies them into a line: `Session.auth`,
+`Session.remoteAddr`, `Ban.re`, the lower-cased map keys and `channels` / `invitedTo` lists, the
+other `Config` strings.)  All 41 handlers of `handlerByName`, the three stages of `processMessage`,
+`applyEntry` for every entry type and every history keep `CInv` and emit only clean lines, provided
+the text of the entries is clean (`CleanEntry`) — which the HTTP handlers' `firstLine` cut guarantees.
 -/
 namespace Robust.Props.C15
 open Robust Robust.Irc
@@ -65,7 +79,173 @@ theorem C15_posted_rendered (body : String) (m : IrcMsg) (hp : parseMessage (fir
     CleanBytes m.render ∧ m.render.length ≤ 510 :=
   ⟨C15_render_clean m (C15_posted_line body m hp), C15_render_len m⟩
 
-/-! ## non-vacuity -/
+/-! ## state level: stored strings stay clean, every emitted line is clean -/
+
+/-- the empty initial state satisfies the invariant -/
+theorem C15_init : CInv ({} : St) := CInv_init
+
+/-- Handler level.  For every handler `h` of the command table (`handlerByName`, client and services
+handlers alike): if every stored string is clean (`CInv c.st`), everything emitted so far is one clean
+line of at most 510 bytes, and the incoming message is clean (prefix, command, parameters), then after
+`h` every stored string is clean again and *every* output — old and new — is one clean line of at most
+510 bytes. -/
+theorem C15_handler_clean (fname : String) (h : Handler) (hh : handlerByName fname = some h)
+    (c c' : Ctx) (sid : Id) (m : IrcMsg) (hI : CInv c.st)
+    (hO : ∀ o ∈ c.out, CleanBytes o.data ∧ o.data.length ≤ 510) (hm : CleanMsg m)
+    (hr : h c sid m = .ok c') :
+    CInv c'.st ∧ ∀ o ∈ c'.out, CleanBytes o.data ∧ o.data.length ≤ 510 :=
+  have hc := handler_cpres hh c sid m c' ⟨hI, hO⟩ hm hr
+  ⟨hc.inv, hc.out⟩
+
+/-- `ProcessMessage` (remote-address bookkeeping and GLINE ban, the 451 / 421 / 461 replies, the
+"not registered within 10 minutes" and "You are banned" ERROR lines, `deleteSession`, the handler) keeps
+the invariant and emits only clean lines when the parsed line, if there is one, is clean. -/
+theorem C15_processMessage_clean (c c' : Ctx) (e : Entry) (im : Option IrcMsg) (hI : CInv c.st)
+    (hO : ∀ o ∈ c.out, CleanBytes o.data ∧ o.data.length ≤ 510) (him : ∀ m, im = some m → CleanMsg m)
+    (hr : processMessage c e im = .ok c') :
+    CInv c'.st ∧ ∀ o ∈ c'.out, CleanBytes o.data ∧ o.data.length ≤ 510 :=
+  have hc := processMessage_clean ⟨hI, hO⟩ him hr
+  ⟨hc.inv, hc.out⟩
+
+/-- One committed entry of any type keeps every stored string clean, provided the text it carries is
+clean (`CleanEntry`: `Clean e.data` for IRCFromClient and DeleteSession entries, clean GLINE reasons for
+Config entries; nothing for CreateSession / MessageOfDeath entries, nothing about `remoteAddr`). -/
+theorem C15_state_clean_step (st st' : St) (e : Entry) (out : List Out) (h : CInv st) (he : CleanEntry e)
+    (hr : applyEntry st e = .ok (st', out)) : CInv st' :=
+  (applyEntry_clean st st' e out h he hr).1
+
+/-- … and every line of the output batch it produces is one IRC line: no CR, LF or NUL byte, at most
+510 bytes. -/
+theorem C15_outputs_clean (st st' : St) (e : Entry) (out : List Out) (h : CInv st) (he : CleanEntry e)
+    (hr : applyEntry st e = .ok (st', out)) : ∀ o ∈ out, CleanBytes o.data ∧ o.data.length ≤ 510 :=
+  (applyEntry_clean st st' e out h he hr).2
+
+/-- Entries as the HTTP API builds them: the text of an IRCFromClient / DeleteSession entry is
+`firstLine` of what the client posted (`C15_handlers_cut` below), hence clean whatever was posted. -/
+theorem C15_api_entry_clean (e : Entry) (body : String) (hd : e.data = firstLine body) (ht : e.type ≠ 6) :
+    CleanEntry e :=
+  ⟨fun _ => hd ▸ firstLine_clean body, fun h6 => absurd h6 ht⟩
+
+/-- End to end for one posted line: whatever a client posts (any string: control characters, very
+long, non-ASCII), in every state whose stored strings are clean, every line delivered as a result is one
+IRC line of at most 510 bytes without CR / LF / NUL, and the stored strings stay clean. -/
+theorem C15_posted_outputs_clean (st st' : St) (e : Entry) (body : String) (out : List Out) (h : CInv st)
+    (ht : e.type = 1 ∨ e.type = 2) (hd : e.data = firstLine body) (hr : applyEntry st e = .ok (st', out)) :
+    CInv st' ∧ ∀ o ∈ out, CleanBytes o.data ∧ o.data.length ≤ 510 :=
+  applyEntry_clean st st' e out h
+    (C15_api_entry_clean e body hd (by rcases ht with ht | ht <;> rw [ht] <;> decide)) hr
+
+/-- Histories: starting from the empty state, after any history of entries with clean text every
+stored string is clean (no well-formedness hypothesis is needed). -/
+theorem C15_history_clean (es : List Entry) (st : St) (hw : CleanHistory es)
+    (hr : runEntries {} es = .ok st) : CInv st :=
+  run_clean CInv_init hw hr
+
+/-- … and every line of every output batch produced along the way (`runLines` collects them in order) is
+one clean line of at most 510 bytes. -/
+theorem C15_history_outputs_clean (es : List Entry) (st : St) (outs : List Out) (hw : CleanHistory es)
+    (hr : runLines {} es = .ok (st, outs)) :
+    CInv st ∧ ∀ o ∈ outs, CleanBytes o.data ∧ o.data.length ≤ 510 :=
+  runLines_clean CInv_init hw hr
+
+/-- `runLines` and `runEntries` agree on the final state -/
+theorem C15_runLines_state (st st' : St) (es : List Entry) (outs : List Out)
+    (hr : runLines st es = .ok (st', outs)) : runEntries st es = .ok st' := runLines_state hr
+
+/-- The quantifier of the property: in every state reachable from the empty one by a history of clean
+entries, for every POST body, every line delivered as a result of posting it is one clean IRC line. -/
+theorem C15_reachable_posted (es : List Entry) (st st' : St) (e : Entry) (body : String) (out : List Out)
+    (hw : CleanHistory es) (hrun : runEntries {} es = .ok st) (ht : e.type = 1 ∨ e.type = 2)
+    (hd : e.data = firstLine body) (hr : applyEntry st e = .ok (st', out)) :
+    ∀ o ∈ out, CleanBytes o.data ∧ o.data.length ≤ 510 :=
+  (C15_posted_outputs_clean st st' e body out (C15_history_clean es st hw hrun) ht hd hr).2
+
+/-! ### non-vacuity of the state-level theorems -/
+
+/-- two logged-in clients in `#c` -/
+def demoSt : St :=
+  { sessions := [(⟨1, 0⟩, { id := ⟨1, 0⟩, loggedIn := true, nick := "alice", username := "a",
+                            ircPrefix := ⟨"alice", "a", "robust/0x1"⟩, channels := ["#c"] }),
+                 (⟨2, 0⟩, { id := ⟨2, 0⟩, loggedIn := true, nick := "bob", username := "b",
+                            ircPrefix := ⟨"bob", "b", "robust/0x2"⟩, channels := ["#c"] })],
+    nicks := [("alice", ⟨1, 0⟩), ("bob", ⟨2, 0⟩)],
+    channels := [("#c", { name := "#c", nicks := [("alice", { chanop := true }), ("bob", {})], modes := ['n', 't'] })] }
+
+/-- an IRCFromClient entry of session 1 -/
+def demoEntry (data : String) : Entry :=
+  { type := 2, id := 10, session := ⟨1, 0⟩, data := data, unixNano := 0, cmid := 1, rev := 0, remoteAddr := "",
+    cfg := none }
+
+def outData (r : Res (St × List Out)) : List Bytes :=
+  match r with
+  | .ok (_, out) => out.map (·.data)
+  | _ => []
+
+theorem demoSt_clean : CInv demoSt := by
+  refine ⟨?_, ?_, (fun _ h => nomatch h), (fun _ h => nomatch h), by decide⟩
+  · intro e he
+    simp only [demoSt, List.mem_cons, List.not_mem_nil, or_false] at he
+    rcases he with rfl | rfl <;> (constructor <;> decide)
+  · intro e he
+    simp only [demoSt, List.mem_cons, List.not_mem_nil, or_false] at he
+    subst he
+    exact ⟨by decide, by decide, by decide, by decide, (fun _ h => nomatch h)⟩
+
+theorem demoEntry_clean : CleanEntry (demoEntry "PRIVMSG #c :hi there") :=
+  ⟨fun _ => by decide, fun h => absurd h (by decide)⟩
+
+/-- the clean posted line is relayed to bob as exactly one line … -/
+theorem demo_relay : outData (applyEntry demoSt (demoEntry "PRIVMSG #c :hi there"))
+    = [utf8 ":alice!a@robust/0x1 PRIVMSG #c :hi there"] := by decide +kernel
+
+/-- … and the theorem applies to it: the hypotheses of `C15_outputs_clean` are satisfiable and its
+conclusion speaks about a non-empty batch -/
+example : ∃ st' out, applyEntry demoSt (demoEntry "PRIVMSG #c :hi there") = .ok (st', out) ∧ out ≠ [] ∧
+    ∀ o ∈ out, CleanBytes o.data ∧ o.data.length ≤ 510 := by
+  cases hr : applyEntry demoSt (demoEntry "PRIVMSG #c :hi there") with
+  | ok r =>
+    obtain ⟨st', out⟩ := r
+    refine ⟨st', out, rfl, ?_, C15_outputs_clean demoSt st' _ out demoSt_clean demoEntry_clean hr⟩
+    intro hnil
+    have h := demo_relay
+    rw [hr, hnil] at h
+    cases h
+  | panic s => have h := demo_relay; rw [hr] at h; cases h
+  | declined s => have h := demo_relay; rw [hr] at h; cases h
+
+/-- the hypothesis `Clean e.data` cannot be dropped: an entry whose text contains a CR — which the API's
+`firstLine` cut excludes, see `C15_firstLine_clean` / `C15_api_entry_clean` — violates `CleanEntry` … -/
+example : ¬ CleanEntry (demoEntry "PRIVMSG #c :hi\rQUIT") :=
+  fun h => absurd (h.data (Or.inr rfl)) (by decide)
+
+/-- … and the state machine would indeed relay the CR verbatim to bob -/
+example : outData (applyEntry demoSt (demoEntry "PRIVMSG #c :hi\rQUIT"))
+      = [utf8 ":alice!a@robust/0x1 PRIVMSG #c hi\rQUIT"] ∧
+    ¬ CleanBytes (utf8 ":alice!a@robust/0x1 PRIVMSG #c hi\rQUIT") := by
+  constructor
+  · decide +kernel
+  · decide +kernel
+
+/-- with the cut, the same POST body yields a clean entry and a clean relayed line -/
+example : (demoEntry (firstLine "PRIVMSG #c :hi\rQUIT")).data = "PRIVMSG #c :hi" ∧
+    outData (applyEntry demoSt (demoEntry (firstLine "PRIVMSG #c :hi\rQUIT")))
+      = [utf8 ":alice!a@robust/0x1 PRIVMSG #c hi"] := by
+  constructor
+  · decide +kernel
+  · decide +kernel
+
+/-- a dirty stored string surfaces later even on a clean input line (why `CInv` is needed): with a topic
+containing LF, a clean `TOPIC #c` query is answered with a two-line 332 reply -/
+example :
+    let st : St := { demoSt with channels :=
+      [("#c", { name := "#c", nicks := [("alice", { chanop := true }), ("bob", {})], modes := ['n', 't'],
+                topic := "x\nQUIT", topicNick := "bob", topicTime := 1 })] }
+    ¬ CInv st ∧ ∃ b ∈ outData (applyEntry st (demoEntry "TOPIC #c")), ¬ CleanBytes b := by
+  refine ⟨fun h => absurd (h.channels _ (List.mem_cons_self ..)).topic (by decide), ?_⟩
+  refine ⟨utf8 ":robustirc.net 332 alice #c x\nQUIT", ?_, by decide +kernel⟩
+  decide +kernel
+
+/-! ## non-vacuity (byte level) -/
 
 example : firstLine "PRIVMSG #c :hi\rQUIT" = "PRIVMSG #c :hi" := by decide
 
